@@ -746,6 +746,18 @@ package jd
 //@   ensures_bounded ret0
 //@   carries C11
 
+//@ contract verifPatchedEquals
+//@   bounded
+//@   universe a verifRandA(0)
+//@   universe b verifRandB(0)
+//@   universe c verifRandC(0)
+//@   zip a b c
+//@   universe o1 [][]Option{{SET}, {MULTISET}, {SetKeys("a")}, {MERGE}}
+//@   universe o2 [][]Option{nil, {SET}, {MULTISET}, {SetKeys("a")}, {Precision(0.5)}}
+//@   requires validNode(a) && validNode(b) && validNode(c)
+//@   ensures_bounded ret0 == ""
+//@   carries C04 C05 C15
+
 //@ contract verifPatchedDiff
 //@   bounded
 //@   universe a verifRandA(TIER)
